@@ -770,6 +770,20 @@ func (p *parser) modItem() (*ModItem, error) {
 	kind := "field"
 	var name string
 	var err error
+	if p.isKw("elemsof") || p.isKw("pointee") {
+		kind := p.next().s
+		if err := p.expectOp("("); err != nil {
+			return nil, err
+		}
+		n, err := p.ident()
+		if err != nil {
+			return nil, err
+		}
+		if err := p.expectOp(")"); err != nil {
+			return nil, err
+		}
+		return &ModItem{Kind: kind, Path: n, Line: line}, nil
+	}
 	if p.isKw("mapof") || p.isKw("elems") {
 		kind = "map"
 		if p.peek().s == "elems" {
